@@ -72,8 +72,8 @@ def check_prog(ctx, r, prog, n):
                 got = [list(x) for x in evs[0]["args"]]
                 k = len(pargs)
                 exp = [[pn_, c] for pn_, (_, c) in zip(m["payload_names"], pargs)]
-                if info.get("mixed_raw"):
-                    ctx.count("mixed_raw_roundtrips")
+                if not m.get("raw_mark") and m["payload"] != "raw" and len(m["payload"]) == 1 and prog["types"][m["payload"][0]].rust == "Binary":
+                    ctx.count("unmarked_binary_payload_roundtrips")
                 if got[len(got) - k:] != exp:
                     ctx.violate(f"roundtrip-payload:{recv_kind}", f"{pn}: `{name}` payload delivered as {json.dumps(got[len(got)-k:])[:160]} but the builder was given {json.dumps(exp)[:160]}", d2)
                 else:
